@@ -107,7 +107,8 @@ fn read_color(slot: &Node) -> Option<String> {
 
 fn format_hex(raw: &str) -> String {
     let trimmed = raw.trim_start_matches('#');
-    let rgb = if trimmed.len() == 8 {
+    // `is_ascii` guards the byte slice
+    let rgb = if trimmed.len() == 8 && trimmed.is_ascii() {
         &trimmed[2..]
     } else {
         trimmed
